@@ -748,6 +748,58 @@ var scMuts = []scMut{
 		*t = scT{K: 2, Of: &o}
 		return true
 	}},
+	{"interface-arg-tightened", func(r *rand.Rand, items []scItem) bool {
+		// an argument the object shares with its interface, non-null where the interface allows null
+		// (at the top or inside a list): argument types must be equal, a "compatible" subtype is refused
+		type cand struct{ t *scT }
+		var cs []cand
+		for oi := range items {
+			o := &items[oi]
+			if o.K != kObject || o.Ext {
+				continue
+			}
+			for _, in := range o.Ifaces {
+				for ii := range items {
+					ifc := &items[ii]
+					if ifc.K != kInterface || ifc.N != in || ifc.Ext {
+						continue
+					}
+					for _, ff := range ifc.Fields {
+						for fi := range o.Fields {
+							if o.Fields[fi].N != ff.N {
+								continue
+							}
+							for _, ia := range ff.Args {
+								for ai := range o.Fields[fi].Args {
+									if o.Fields[fi].Args[ai].N == ia.N {
+										t := &o.Fields[fi].Args[ai].T
+										for {
+											if t.K == 2 { // already non-null at this level
+												t = t.Of
+												continue
+											}
+											cs = append(cs, cand{t})
+											if t.K != 1 {
+												break
+											}
+											t = t.Of
+										}
+									}
+								}
+							}
+						}
+					}
+				}
+			}
+		}
+		if len(cs) == 0 {
+			return false
+		}
+		t := cs[r.Intn(len(cs))].t
+		o := *t
+		*t = scT{K: 2, Of: &o}
+		return true
+	}},
 	{"missing-interface-arg", func(r *rand.Rand, items []scItem) bool {
 		it := scPick(r, items, func(it *scItem) bool { return it.K == kObject && len(it.Ifaces) > 0 && len(it.Fields[0].Args) > 0 })
 		if it == nil {
@@ -968,6 +1020,35 @@ var scAddMuts = []struct {
 		}
 		p := r.Intn(len(items) + 1)
 		return append(items[:p:p], append([]scItem{dup}, items[p:]...)...)
+	}},
+	{"scalar-then-same-name", func(r *rand.Rand, items []scItem) []scItem {
+		// a name held by a scalar and defined again as another kind LATER in the document
+		it := scPick(r, items, func(it *scItem) bool { return it.K != kSchema && it.K != kDirective && it.K != kScalar && !it.Ext })
+		if it == nil {
+			return nil
+		}
+		idx := 0
+		for i := range items {
+			if &items[i] == it {
+				idx = i
+			}
+		}
+		p := r.Intn(idx + 1)
+		return append(items[:p:p], append([]scItem{{K: kScalar, N: it.N}}, items[p:]...)...)
+	}},
+	{"same-name-then-scalar", func(r *rand.Rand, items []scItem) []scItem {
+		it := scPick(r, items, func(it *scItem) bool { return it.K != kSchema && it.K != kDirective && it.K != kScalar && !it.Ext })
+		if it == nil {
+			return nil
+		}
+		idx := 0
+		for i := range items {
+			if &items[i] == it {
+				idx = i
+			}
+		}
+		p := idx + 1 + r.Intn(len(items)-idx)
+		return append(items[:p:p], append([]scItem{{K: kScalar, N: it.N}}, items[p:]...)...)
 	}},
 	{"extend-missing-base", func(r *rand.Rand, items []scItem) []scItem {
 		x := scItem{Ext: true, K: kObject, N: 900 + r.Intn(50), Fields: []scField{{N: 650, T: scT{N: 0}}}}
